@@ -678,9 +678,138 @@ func runAliasing(p *Program, c *Collector, a FuncRuleSpec) {
 			}
 		}
 	}
+	n += runSharedMaps(p, c, a)
+	runPresizedHoles(p, c, a)
 	if n == 0 {
 		c.Ob(a.Props, "E7.pointer-aliasing", "alias:"+strings.Join(a.Funcs, ","), Discharged, a.What+": no address of a variable is stored in a container", "", true)
 	}
+}
+
+// runSharedMaps: a map made outside a loop and put into a record that is registered in a container inside the loop is shared
+// by all records of that loop; if the code base ever updates a map reached through that field, the records' histories merge.
+func runSharedMaps(p *Program, c *Collector, a FuncRuleSpec) int {
+	n := 0
+	for _, fn := range expandFuncs(p, c, a.Funcs, a.Props...) {
+		for _, b := range fn.Blocks {
+			for _, in := range b.Instrs {
+				mm, ok := in.(*ssa.MakeMap)
+				if !ok {
+					continue
+				}
+				refs := mm.Referrers()
+				if refs == nil {
+					continue
+				}
+				// where does the map go? direct container stores, or a field of a local record that is then stored by value
+				type sink struct {
+					at    ssa.Instruction
+					field string
+				}
+				var sinks []sink
+				for _, r := range *refs {
+					switch u := r.(type) {
+					case *ssa.MapUpdate:
+						if u.Value == ssa.Value(mm) {
+							sinks = append(sinks, sink{u, ""})
+						}
+					case *ssa.Store:
+						if u.Val != ssa.Value(mm) {
+							continue
+						}
+						if _, isIdx := u.Addr.(*ssa.IndexAddr); isIdx {
+							sinks = append(sinks, sink{u, ""})
+							continue
+						}
+						fa, ok := u.Addr.(*ssa.FieldAddr)
+						if !ok {
+							continue
+						}
+						al, ok := fa.X.(*ssa.Alloc)
+						if !ok {
+							continue
+						}
+						fname, _ := fieldOf(fa.X.Type(), fa.Field)
+						st := al.Type().Underlying().(*types.Pointer).Elem()
+						_, tn := namedTypeName(st)
+						// the record is stored by value: loads of the alloc flowing into a container
+						for _, r2 := range *al.Referrers() {
+							ld, ok := r2.(*ssa.UnOp)
+							if !ok || ld.Op != token.MUL {
+								continue
+							}
+							for _, r3 := range *ld.Referrers() {
+								switch u3 := r3.(type) {
+								case *ssa.MapUpdate:
+									if u3.Value == ssa.Value(ld) {
+										sinks = append(sinks, sink{u3, tn + "." + fname})
+									}
+								case *ssa.Store:
+									if _, isIdx := u3.Addr.(*ssa.IndexAddr); isIdx && u3.Val == ssa.Value(ld) {
+										sinks = append(sinks, sink{u3, tn + "." + fname})
+									}
+								}
+							}
+						}
+					}
+				}
+				for _, sk := range sinks {
+					reg := loopRegion(fn, sk.at.Block())
+					if reg == nil || reg[mm.Block()] {
+						continue // one map per stored record
+					}
+					n++
+					key := fmt.Sprintf("sharedmap:%s map made at loop depth above its record %s", p.FuncKey(fn), sk.field)
+					if w := mapFieldUpdated(p, sk.field); w != "" || sk.field == "" {
+						c.Ob(a.Props, "E7.pointer-aliasing", key, Violated, a.What+": one map ("+p.InstrPos(mm)+") is put into every record stored by the loop at "+p.InstrPos(sk.at)+"; "+
+							map[bool]string{true: "the map is updated through that field at " + w, false: "records share it"}[w != ""]+", so an update meant for one record shows in all of them", p.InstrPos(sk.at), false)
+					} else {
+						c.Ob(a.Props, "E7.pointer-aliasing", key, Discharged, "the shared map is never updated through "+sk.field, p.InstrPos(sk.at), true)
+					}
+				}
+			}
+		}
+	}
+	return n
+}
+
+// mapFieldUpdated: some own function updates a map obtained from field T.F (x.F[k] = v).
+func mapFieldUpdated(p *Program, field string) string {
+	if field == "" {
+		return ""
+	}
+	for _, fn := range p.OwnFuncs {
+		for _, b := range fn.Blocks {
+			for _, in := range b.Instrs {
+				mu, ok := in.(*ssa.MapUpdate)
+				if !ok {
+					continue
+				}
+				var base ssa.Value
+				var idx int
+				switch m := mu.Map.(type) {
+				case *ssa.Field:
+					base, idx = m.X, m.Field
+				case *ssa.UnOp:
+					if fa, ok := m.X.(*ssa.FieldAddr); ok && m.Op == token.MUL {
+						base, idx = fa.X, fa.Field
+					}
+				}
+				if base == nil {
+					continue
+				}
+				fname, _ := fieldOf(base.Type(), idx)
+				t := base.Type()
+				if pt, ok := t.Underlying().(*types.Pointer); ok {
+					t = pt.Elem()
+				}
+				_, tn := namedTypeName(t)
+				if tn+"."+fname == field {
+					return p.InstrPos(mu)
+				}
+			}
+		}
+	}
+	return ""
 }
 
 func addressedCell(v ssa.Value) ssa.Value {
@@ -1469,3 +1598,76 @@ func runImmutable(p *Program, c *Collector, im ImmutableSpec) {
 }
 
 func regexpCompile(pat string) (*regexp.Regexp, error) { return regexp.Compile(pat) }
+
+
+// ---------------------------------------------------------------------------------------------
+// pre-sized result with conditional fill: make([]T, n) followed by out[i] = v on only some iterations leaves zero-valued
+// phantom entries in the result (append-based collection does not).
+
+func runPresizedHoles(p *Program, c *Collector, a FuncRuleSpec) {
+	for _, fn := range expandFuncs(p, c, a.Funcs, a.Props...) {
+		for _, b := range fn.Blocks {
+			for _, in := range b.Instrs {
+				ms, ok := in.(*ssa.MakeSlice)
+				if !ok {
+					continue
+				}
+				if n, isC := constInt(ms.Len); isC && n == 0 {
+					continue
+				}
+				if _, isStruct := ms.Type().Underlying().(*types.Slice).Elem().Underlying().(*types.Struct); !isStruct {
+					continue // records only: a zero record is a phantom entry
+				}
+				// element stores through the slice
+				var stores []*ssa.Store
+				var walk func(v ssa.Value, seen map[ssa.Value]bool)
+				walk = func(v ssa.Value, seen map[ssa.Value]bool) {
+					if seen[v] || v.Referrers() == nil {
+						return
+					}
+					seen[v] = true
+					for _, r := range *v.Referrers() {
+						switch u := r.(type) {
+						case *ssa.IndexAddr:
+							if u.X == v {
+								for _, r2 := range *u.Referrers() {
+									if st, ok := r2.(*ssa.Store); ok && st.Addr == ssa.Value(u) {
+										stores = append(stores, st)
+									}
+								}
+							}
+						case *ssa.Slice:
+							walk(u, seen)
+						case *ssa.Phi:
+							walk(u, seen)
+						}
+					}
+				}
+				walk(ms, map[ssa.Value]bool{})
+				if len(stores) == 0 {
+					continue
+				}
+				key := fmt.Sprintf("presized:%s %s", p.FuncKey(fn), ms.Name())
+				bad := ""
+				for _, st := range stores {
+					reg := loopRegion(fn, st.Block())
+					if reg == nil || reg[ms.Block()] {
+						continue
+					}
+					h := loopHeader(reg)
+					// the store must happen on every iteration: its block dominates every back edge source
+					for _, pred := range h.Preds {
+						if reg[pred] && !st.Block().Dominates(pred) {
+							bad = "the element store at " + p.InstrPos(st) + " is skipped on some iterations of the loop, so the slice made with a length at " + p.InstrPos(ms) + " keeps zero-valued entries"
+						}
+					}
+				}
+				if bad != "" {
+					c.Ob(a.Props, "E7.presized-holes", key, Violated, a.What+": "+bad, p.InstrPos(ms), false)
+				} else {
+					c.Ob(a.Props, "E7.presized-holes", key, Discharged, "every iteration stores its element", p.InstrPos(ms), true)
+				}
+			}
+		}
+	}
+}
